@@ -20,7 +20,7 @@ func init() {
 	register(&Property{
 		ID:    "C05",
 		Level: "other",
-		Explain: "Path geometry is floating point and not decided. Structural clauses decided: (R05.5) the smooth-curve reflection state is cleared by every command of another family and by closepath; (R05.1) in the path-data emitter every path that writes bytes of a command into the destination also updates the `last emitted command` state used to elide the next command letter; " +
+		Explain: "Path geometry is floating point and not decided. Structural clauses decided: (R05.7) start and end tags are renamed together; (R05.8) an exponent is written only into a plain integer; (R05.9) id/class/href values are not rewritten as numbers; (R05.10) a curve becomes a line only if a following smooth curve keeps its control point; (R05.5) the smooth-curve reflection state is cleared by every command of another family and by closepath; (R05.1) in the path-data emitter every path that writes bytes of a command into the destination also updates the `last emitted command` state used to elide the next command letter; " +
 			"(R05.2) every way an attribute can be dropped in the SVG minifier is one of: already removed, a documented default value on the element that defines that default (the (attribute, value) pairs are evaluated and compared with the SVG defaults), or a namespace test that exempts the functional prefixes xlink and xml; " +
 			"(R05.3) elements are dropped only under the enumerated guards (metadata, foreign-namespace element, empty defs). Not covered: numeric value preservation of lengths, colours, paths.",
 		Run: runC05,
@@ -46,6 +46,18 @@ func init() {
 	mutant(&Mutant{Name: "c05-closepath-keeps-control-point", Property: "C05", File: "svg/pathdata.go",
 		Old: "\t\t\tp.qx, p.qy = math.NaN(), math.NaN()\n\t\t\tb[0] = 'z'\n", New: "\t\t\tb[0] = 'z'\n",
 		Rule: "R05.5", Construct: "closepath clears p.qx"})
+	mutant(&Mutant{Name: "c05-end-tag-keeps-svg-prefix", Property: "C05", File: "svg/svg.go",
+		Old: "\t\t\tif colon := bytes.IndexByte(t.Text, ':'); colon != -1 && bytes.Equal(t.Text[:colon], svgStartTagBytes[1:]) {\n\t\t\t\t// the start tag was written without the svg: prefix\n\t\t\t\tt.Data = append(t.Data[:2], t.Data[2+colon+1:]...)\n\t\t\t}\n", New: "",
+		Rule: "R05.7", Construct: "start tag rename"})
+	mutant(&Mutant{Name: "c05-e2-for-every-number", Property: "C05", File: "svg/pathdata.go",
+		Old: "\tif isInt && len(coord) > 2 && coord[len(coord)-2] == '0'", New: "\tif len(coord) > 2 && coord[len(coord)-2] == '0'",
+		Rule: "R05.8", Construct: "exponent written"})
+	mutant(&Mutant{Name: "c05-id-shortened-as-number", Property: "C05", File: "svg/svg.go",
+		Old: "attr != Version && !isNameAttr(t.Text) {", New: "attr != Version {",
+		Rule: "R05.9", Construct: "numeric rewrite"})
+	mutant(&Mutant{Name: "c05-href-not-a-name", Property: "C05", File: "svg/svg.go",
+		Old: "return bytes.Equal(name, idBytes) || bytes.Equal(name, classBytes) || bytes.Equal(name, hrefBytes) || bytes.HasSuffix(name, colonHrefBytes)", New: "return bytes.Equal(name, idBytes) || bytes.Equal(name, classBytes)",
+		Rule: "R05.9", Construct: "numeric rewrite"})
 	mutant(&Mutant{Name: "c05-drop-title", Property: "C05", File: "svg/svg.go",
 		Old: "\t\t\tif tag == Metadata {\n\t\t\t\tt.Data = nil\n", New: "\t\t\tif tag == Metadata {\n\t\t\t\tt.Data = nil\n\t\t\t} else if tag == Style {\n\t\t\t\tt.Data = nil\n",
 		Rule: "R05.3", Construct: "element dropped"})
@@ -60,6 +72,408 @@ func runC05(c *Ctx) {
 	c.r052(pk)
 	c.entityReescape("R05.4", "svg", 2, false)
 	c.r055(pk)
+	c.r057(pk)
+	c.r058(pk)
+	c.r059(pk)
+	c.r0510(pk)
+}
+
+// R05.10: a curve is replaced by a line only if a following smooth curve still sees the same control point.
+func (c *Ctx) r0510(pk *packages.Package) {
+	const rule = "R05.10"
+	c.R.Rule(rule, "after a line the control point of a following S/T is the current point; after the curve it replaces it is the reflection of the curve's last control point in the end point. Both agree only when that control point coincides with the END point. In svg.(*PathData).copyInstruction the condition of every branch that turns a C/S or Q/T into a line (assigns 'L' / 'l' to cmd inside the family's branch) must therefore imply V == E component-wise — or the falsity of a flag that is computed from a comparison of the following command with the family's smooth letters (S/s, T/t) — where V are the values stored into the reflection state (p.cx,p.cy / p.qx,p.qy) and E the values stored into the current point (p.x, p.y) — checked by enumerating the truth values of the condition's comparison atoms. `M0 0C0 0 0 0 10 10S20 20 30 30` → `M0 0 10 10S20 20 30 30` moves the first control point of the S from (20,20) to (10,10)")
+	info := pk.TypesInfo
+	fd := c.fn(rule, pk, "PathData.copyInstruction")
+	if fd == nil {
+		return
+	}
+	recv := fd.Recv.List[0].Names[0].Name
+	// E: values stored into p.x / p.y
+	endVar := map[string]string{}
+	ast.Inspect(fd.Body, func(x ast.Node) bool {
+		if as, ok := x.(*ast.AssignStmt); ok && len(as.Lhs) == len(as.Rhs) {
+			for i, l := range as.Lhs {
+				if str(l) == recv+".x" || str(l) == recv+".y" {
+					if id, isId := ast.Unparen(as.Rhs[i]).(*ast.Ident); isId {
+						endVar[str(l)[len(recv)+1:]] = id.Name
+					}
+				}
+			}
+		}
+		return true
+	})
+	if endVar["x"] == "" || endVar["y"] == "" {
+		c.R.Unres(rule, "svg.PathData.copyInstruction/current point", c.pos(fd), "assignments p.x = <var>, p.y = <var> not found")
+		return
+	}
+	n := 0
+	for _, fam := range [][2]string{{"cx", "cy"}, {"qx", "qy"}} {
+		// the statement p.cx, p.cy = V1, V2 with identifiers on the right
+		var store *ast.AssignStmt
+		ast.Inspect(fd.Body, func(x ast.Node) bool {
+			if as, ok := x.(*ast.AssignStmt); ok && len(as.Lhs) == 2 && len(as.Rhs) == 2 && str(as.Lhs[0]) == recv+"."+fam[0] && str(as.Lhs[1]) == recv+"."+fam[1] {
+				if _, ok1 := as.Rhs[0].(*ast.Ident); ok1 {
+					if _, ok2 := as.Rhs[1].(*ast.Ident); ok2 {
+						store = as
+					}
+				}
+			}
+			return true
+		})
+		if store == nil {
+			c.R.Unres(rule, "svg.PathData.copyInstruction/"+recv+"."+fam[0]+" store", c.pos(fd), "assignment of the last control point to the reflection state not found")
+			continue
+		}
+		v1, v2 := str(store.Rhs[0]), str(store.Rhs[1])
+		// the enclosing family branch
+		var branch *ast.IfStmt
+		for x := c.P.Parent(store); x != nil; x = c.P.Parent(x) {
+			if ifs, ok := x.(*ast.IfStmt); ok {
+				branch = ifs
+				break
+			}
+		}
+		if branch == nil {
+			continue
+		}
+		ast.Inspect(branch.Body, func(x ast.Node) bool {
+			ifs, ok := x.(*ast.IfStmt)
+			if !ok {
+				return true
+			}
+			toLine := false
+			ast.Inspect(ifs.Body, func(y ast.Node) bool {
+				if as, ok := y.(*ast.AssignStmt); ok && len(as.Lhs) == 1 && str(as.Lhs[0]) == "cmd" {
+					if k, isK := intConst(info, as.Rhs[0]); isK && (k == 'L' || k == 'l') {
+						toLine = true
+					}
+				}
+				return true
+			})
+			if !toLine {
+				return true
+			}
+			n++
+			construct := fmt.Sprintf("svg.PathData.copyInstruction/%s,%s: curve replaced by a line", fam[0], fam[1])
+			// atoms
+			var atoms []string
+			var leaves func(e ast.Expr)
+			leaves = func(e ast.Expr) {
+				e = ast.Unparen(e)
+				if b, ok := e.(*ast.BinaryExpr); ok && (b.Op == token.LAND || b.Op == token.LOR) {
+					leaves(b.X)
+					leaves(b.Y)
+					return
+				}
+				if u, ok := e.(*ast.UnaryExpr); ok && u.Op == token.NOT {
+					leaves(u.X)
+					return
+				}
+				k := nospace(str(e))
+				for _, a := range atoms {
+					if a == k {
+						return
+					}
+				}
+				atoms = append(atoms, k)
+			}
+			leaves(ifs.Cond)
+			if len(atoms) > 16 {
+				c.R.Unres(rule, construct, c.pos(ifs), "too many atoms")
+				return true
+			}
+			// boolean locals defined from a comparison with the family's smooth command letters
+			smoothFlag := map[string]bool{}
+			smoothLetters := map[string][2]int64{"cx": {'S', 's'}, "qx": {'T', 't'}}[fam[0]]
+			for _, a := range atoms {
+				ast.Inspect(fd.Body, func(y ast.Node) bool {
+					as, ok := y.(*ast.AssignStmt)
+					if !ok || len(as.Lhs) != 1 || len(as.Rhs) != 1 || str(as.Lhs[0]) != a {
+						return true
+					}
+					hasU, hasL := false, false
+					ast.Inspect(as.Rhs[0], func(q ast.Node) bool {
+						if e, ok := q.(ast.Expr); ok {
+							if k, isK := intConst(info, e); isK {
+								hasU = hasU || k == smoothLetters[0]
+								hasL = hasL || k == smoothLetters[1]
+							}
+						}
+						return true
+					})
+					if hasU && hasL {
+						smoothFlag[a] = true
+					}
+					return true
+				})
+			}
+			w1 := nospace(v1 + "==" + endVar["x"])
+			w2 := nospace(v2 + "==" + endVar["y"])
+			bad := ""
+			for mask := 0; mask < 1<<len(atoms) && bad == ""; mask++ {
+				env := map[string]int64{}
+				for k, a := range atoms {
+					env[a] = int64(mask >> k & 1)
+				}
+				v, ok := evalIntExpr(info, ifs.Cond, env)
+				if !ok {
+					c.R.Unres(rule, construct, c.pos(ifs), "condition could not be evaluated over its atoms")
+					return true
+				}
+				// alternative discharge: a flag saying that a smooth curve of this family follows is false
+				noSmooth := false
+				for _, a := range atoms {
+					if env[a] == 0 && smoothFlag[a] {
+						noSmooth = true
+					}
+				}
+				if v != 0 && (env[w1] == 0 || env[w2] == 0) && !noSmooth {
+					var on []string
+					for k, a := range atoms {
+						if mask>>k&1 == 1 {
+							on = append(on, a)
+						}
+					}
+					bad = strings.Join(on, " ∧ ")
+				}
+			}
+			c.R.Check(bad == "", rule, construct, c.pos(ifs), "implies "+w1+" ∧ "+w2, "the curve is turned into a line although its last control point need not be the end point (holds e.g. with only "+bad+"): a following smooth curve then starts from a different control point")
+			return true
+		})
+	}
+	c.R.Floor(rule, "curve-to-line rewrites", n, 2)
+}
+
+// R05.9: names and references are not rewritten as numbers.
+func (c *Ctx) r059(pk *packages.Package) {
+	const rule = "R05.9"
+	c.R.Rule(rule, "in the AttributeToken case of svg.(*Minifier).Minify the numeric rewrite of an attribute value (a call of shortenDimension / minify.Number / minify.Decimal on the value) is reached only after tests that exclude the attributes whose value is a name or a reference although it may look like a number — id, class, href (and xlink:href): the byte constants compared with the attribute name on the way to the rewrite (in the conditions themselves or inside a predicate of package svg called there) must include `id`, `class` and `href`. `id=\"1000\"` → `id=\"1e3\"` breaks every `href=\"#1000\"`")
+	info := pk.TypesInfo
+	fd := c.fn(rule, pk, "Minifier.Minify")
+	if fd == nil {
+		return
+	}
+	g := c.graph(pk, fd)
+	constsIn := func(root ast.Node) map[string]bool {
+		out := map[string]bool{}
+		var visit func(n ast.Node, depth int)
+		visit = func(n ast.Node, depth int) {
+			ast.Inspect(n, func(x ast.Node) bool {
+				switch e := x.(type) {
+				case *ast.Ident:
+					if v, isVar := info.Uses[e].(*types.Var); isVar && v.Parent() == pk.Types.Scope() {
+						if val, err := c.Ev.Expr(pk, e); err == nil {
+							if b, isB := val.([]byte); isB {
+								out[string(b)] = true
+							}
+						}
+					}
+					if k, isK := info.Uses[e].(*types.Const); isK && k.Pkg() == pk.Types {
+						out["hash:"+k.Name()] = true
+					}
+				case *ast.BasicLit:
+					if val, err := c.Ev.Expr(pk, e); err == nil {
+						if sv, isS := val.(string); isS {
+							out[sv] = true
+						}
+					}
+				case *ast.CallExpr:
+					if fo, ok := callee(info, e).(*types.Func); ok && fo.Pkg() == pk.Types && depth < 2 {
+						if d := c.P.DeclOf(fo); d != nil && d.Body != nil {
+							visit(d.Body, depth+1)
+						}
+					}
+				}
+				return true
+			})
+		}
+		visit(root, 0)
+		return out
+	}
+	n := 0
+	for _, y := range g.Nodes {
+		a := y.Ast()
+		if a == nil || y.Kind != flow.KStmt || c.caseLabel(a) != "case xml.AttributeToken" {
+			continue
+		}
+		hit := false
+		flowInspectCalls(a, func(call *ast.CallExpr) {
+			switch calleeName(info, call) {
+			case load.Mod + "/svg.(Minifier).shortenDimension", load.Mod + ".Number", load.Mod + ".Decimal":
+				if len(call.Args) > 0 && (str(call.Args[0]) == "val" || strings.Contains(str(call.Args[0]), "AttrVal")) {
+					hit = true
+				}
+			}
+		})
+		if !hit {
+			continue
+		}
+		n++
+		seen := map[string]bool{}
+		for _, f := range g.DomFacts(y) {
+			if f.Test.Kind == flow.KCond && f.Test.Expr != nil && c.caseLabel(f.Test.Expr) == "case xml.AttributeToken" {
+				for k := range constsIn(f.Test.Expr) {
+					seen[k] = true
+				}
+			}
+		}
+		var missing []string
+		for _, want := range []string{"id", "class", "href"} {
+			if !seen[want] && !seen["hash:"+strings.ToUpper(want[:1])+want[1:]] {
+				missing = append(missing, want)
+			}
+		}
+		c.R.Check(len(missing) == 0, rule, fmt.Sprintf("svg.Minifier.Minify/numeric rewrite of an attribute value#%d", n), c.pos(a), "id, class and href are excluded", "the value of every attribute that looks like a number is shortened, without excluding "+strings.Join(missing, ", ")+": `id=\"1000\"` becomes `id=\"1e3\"` while `href=\"#1000\"` keeps pointing at the old name")
+	}
+	c.R.Floor(rule, "numeric rewrites of attribute values", n, 1)
+}
+
+// R05.8: an exponent is only written into a number that has none.
+func (c *Ctx) r058(pk *packages.Package) {
+	const rule = "R05.8"
+	c.R.Rule(rule, "package svg: every store of the byte 'e' / 'E' into a byte slice (turning the tail of a number into an exponent, `100` → `1e2`) is reached only through the true outcome of a flag that is cleared inside a scan of the same slice on finding '.', 'e' or 'E' — i.e. after establishing that the number is a plain integer. `1e100` would otherwise become `1e1e2` and `2e-100` become `2e-1e2`, which are not numbers")
+	info := pk.TypesInfo
+	n := 0
+	for _, fd := range load.FuncDecls(pk) {
+		if fd.Body == nil {
+			continue
+		}
+		g := c.graph(pk, fd)
+		for _, y := range g.Nodes {
+			as, ok := y.Stmt.(*ast.AssignStmt)
+			if !ok || y.Kind != flow.KStmt || len(as.Lhs) != 1 || len(as.Rhs) != 1 {
+				continue
+			}
+			ix, isIx := ast.Unparen(as.Lhs[0]).(*ast.IndexExpr)
+			if !isIx || !isByteSlice(info.TypeOf(ix.X)) {
+				continue
+			}
+			k, isK := intConst(info, as.Rhs[0])
+			if !isK || k != 'e' && k != 'E' {
+				continue
+			}
+			n++
+			slice := str(ix.X)
+			construct := fmt.Sprintf("svg.%s/exponent written into %s", load.FuncName(fd), slice)
+			// flags: identifiers with a true outcome dominating the store
+			okFlag := ""
+			for _, f := range g.DomFacts(y) {
+				if f.Test.Kind != flow.KCond || !f.Value {
+					continue
+				}
+				id, isId := ast.Unparen(f.Test.Expr).(*ast.Ident)
+				if !isId {
+					continue
+				}
+				obj := info.Uses[id]
+				// an assignment `flag = false` inside a range over the same slice, dominated by tests of the element against '.', 'e', 'E'
+				for _, z := range g.Nodes {
+					rhs, isAs := assignsTo(z, func(l ast.Expr) bool {
+						li, ok := ast.Unparen(l).(*ast.Ident)
+						return ok && info.Uses[li] == obj
+					})
+					if !isAs || str(rhs) != "false" {
+						continue
+					}
+					seen := map[int64]bool{}
+					inScan := false
+					for _, zf := range g.DomFacts(z) {
+						if zf.Test.Kind == flow.KRange {
+							if rs, ok := zf.Test.Stmt.(*ast.RangeStmt); ok && str(rs.X) == slice {
+								inScan = true
+							}
+						}
+					}
+					// the comparisons may be a disjunction: collect every `x == 'c'` test in the enclosing if
+					if ifs, ok := c.P.Parent(c.P.Parent(z.Stmt)).(*ast.IfStmt); ok {
+						ast.Inspect(ifs.Cond, func(q ast.Node) bool {
+							if be, ok := q.(*ast.BinaryExpr); ok && be.Op == token.EQL {
+								if cv, ok := intConst(info, be.Y); ok {
+									seen[cv] = true
+								}
+							}
+							return true
+						})
+					}
+					if inScan && seen['.'] && seen['e'] && seen['E'] {
+						okFlag = id.Name
+					}
+				}
+			}
+			c.R.Check(okFlag != "", rule, construct, c.pos(as), "only when the scan found no '.', 'e', 'E' ("+okFlag+")", "an exponent marker is stored into "+slice+" without first establishing that the number has no fraction or exponent: `1e100` becomes `1e1e2`")
+		}
+	}
+	c.R.Floor(rule, "exponent stores", n, 1)
+}
+
+// R05.7: a start tag and its end tag are renamed together.
+func (c *Ctx) r057(pk *packages.Package) {
+	const rule = "R05.7"
+	c.R.Rule(rule, "in svg.(*Minifier).Minify every rewrite of an element name in the StartTagToken case (an assignment of a non-nil value to t.Data under a test against a package-level prefix constant, e.g. the removal of the `svg:` prefix) has a counterpart in the EndTagToken case that tests the same constant: otherwise `<svg:g>…</svg:g>` becomes `<g>…</svg:g>`, which is not well-formed")
+	info := pk.TypesInfo
+	fd := c.fn(rule, pk, "Minifier.Minify")
+	if fd == nil {
+		return
+	}
+	g := c.graph(pk, fd)
+	pkgVarsIn := func(e ast.Expr) map[types.Object]bool {
+		out := map[types.Object]bool{}
+		ast.Inspect(e, func(x ast.Node) bool {
+			if id, ok := x.(*ast.Ident); ok {
+				if v, isVar := info.Uses[id].(*types.Var); isVar && v.Parent() == pk.Types.Scope() && isByteSlice(v.Type()) {
+					out[v] = true
+				}
+			}
+			return true
+		})
+		return out
+	}
+	// constants tested in the end-tag case
+	endVars := map[types.Object]bool{}
+	for _, y := range g.Nodes {
+		if y.Kind == flow.KCond && y.Expr != nil && c.caseLabel(y.Expr) == "case xml.EndTagToken" {
+			for v := range pkgVarsIn(y.Expr) {
+				endVars[v] = true
+			}
+		}
+	}
+	n := 0
+	for _, y := range g.Nodes {
+		as, ok := y.Stmt.(*ast.AssignStmt)
+		if !ok || y.Kind != flow.KStmt || c.caseLabel(as) != "case xml.StartTagToken" {
+			continue
+		}
+		for i, l := range as.Lhs {
+			if str(l) != "t.Data" || i >= len(as.Rhs) || isNilExpr(as.Rhs[i]) {
+				continue
+			}
+			n++
+			guards := map[types.Object]bool{}
+			for _, f := range g.DomFacts(y) {
+				if f.Test.Kind == flow.KCond && f.Value && c.caseLabel(f.Test.Expr) == "case xml.StartTagToken" {
+					for v := range pkgVarsIn(f.Test.Expr) {
+						guards[v] = true
+					}
+				}
+			}
+			var names []string
+			mirrored := false
+			for v := range guards {
+				names = append(names, v.Name())
+				if endVars[v] {
+					mirrored = true
+				}
+			}
+			sort.Strings(names)
+			construct := fmt.Sprintf("svg.Minifier.Minify/start tag rename under %s", strings.Join(names, ","))
+			if len(guards) == 0 {
+				c.R.Unres(rule, "svg.Minifier.Minify/start tag rewrite "+str0(as), c.pos(as), "the rewrite of the start tag is not guarded by a test against a prefix constant: its counterpart for the end tag cannot be identified")
+				continue
+			}
+			c.R.Check(mirrored, rule, construct, c.pos(as), "the EndTagToken case tests the same prefix", "the start tag's name is rewritten under a test of "+strings.Join(names, ",")+" but the EndTagToken case never tests that constant: the end tag keeps the old name (`<svg:g>…</svg:g>` → `<g>…</svg:g>`)")
+		}
+	}
+	c.R.Floor(rule, "start tag rewrites", n, 1)
 }
 
 // R05.5: smooth-curve reflection state is cleared by every command of another family.
